@@ -101,6 +101,8 @@ def gen_script(rng, big=False):
 
 
 CORPUS = [
+    # a rank that makes no call at all (regression of a false alarm of this check)
+    {"n": 6, "ops": [[1, 4, 1, 25, 82720, 6], [1, 5, 1, 23, 2835, 5], [2, 2, 0, 40, 13383, 5], [3]]},
     # the three witnesses of the C37_pinned_*_refuted lemmas
     {"n": 4, "ops": [[11, 2, 100, 0, 0]]},                      # gather, recvcount 0 on the non-root ranks
     {"n": 4, "ops": [[19, 1, 1234567], [6]]},                   # sleep needing 7 significant digits
@@ -300,6 +302,9 @@ def run_both(ctx, prog, script, idx, work):
                 last[int(p[0]) - 1] = float(p[1])
             except ValueError:
                 pass
+    for r in range(n):   # init/finalize are not logged by the replayer: a rank making no other call ends at date 0
+        if r not in last and all(x[0] in ("init", "finalize") for x in tr1[r]):
+            last[r] = 0.0
     sample = " | ".join(" ".join(x) for r in sorted(tr1) for x in tr1[r][1:3])[:300]
     if rc != 0 or sorted(last) != list(range(n)):
         why = [l for l in (so + "\n" + se).split("\n") if re.search(r"CRITICAL|what\(\)|MPI_ERR|replay failed|Assertion|out of range", l)]
@@ -443,7 +448,7 @@ def run(ctx):
         for k in kinds_of(s):
             dist[k] = dist.get(k, 0) + 1
         nontriv = r is not None and any(o[0] != 19 for o in s["ops"])
-        ctx.case(json.dumps(s, sort_keys=True), nontriv, {"script": s, "verdict": r and r["ok"]} if idx in (0, 4, len(CORPUS)) else None)
+        ctx.case(json.dumps(s, sort_keys=True), nontriv, {"script": s, "verdict": r and r["ok"]} if idx in (1, 5, len(CORPUS)) else None)
     shutil.rmtree(work, ignore_errors=True)
     ctx.cov["input_distribution"] = {"scripts": len(scripts), "ranks": "2..8", "ops per script": "3..14",
                                      "scripts containing opcode (1 send,2 isend/irecv,3 waitall,4 wait,5 test loop,6 barrier,7 bcast,8 reduce,"
